@@ -124,9 +124,23 @@ func (hvs *HeightVoteSet) AddVote(vote *types.Vote, peerKey string) (added bool,
 	voteSet := hvs.getVoteSet(vote.Round, vote.Type)
 	if voteSet == nil {
 		if rndz := hvs.peerCatchupRounds[peerKey]; len(rndz) < 2 {
-			hvs.addRound(vote.Round)
-			voteSet = hvs.getVoteSet(vote.Round, vote.Type)
-			hvs.peerCatchupRounds[peerKey] = append(rndz, vote.Round)
+			// Only a vote that passes validation may open a catch-up round: it is checked against fresh
+			// vote sets first, so that a vote that fails (bad signature, index, address ...) leaves the
+			// height vote set and the peer's catch-up allowance exactly as they were.
+			rvs := RoundVoteSet{
+				Prevotes:   types.NewVoteSet(hvs.chainID, hvs.height, vote.Round, types.VoteTypePrevote, hvs.valSet),
+				Precommits: types.NewVoteSet(hvs.chainID, hvs.height, vote.Round, types.VoteTypePrecommit, hvs.valSet),
+			}
+			voteSet = rvs.Prevotes
+			if vote.Type == types.VoteTypePrecommit {
+				voteSet = rvs.Precommits
+			}
+			added, err = voteSet.AddVote(vote)
+			if added {
+				hvs.roundVoteSets[vote.Round] = rvs
+				hvs.peerCatchupRounds[peerKey] = append(rndz, vote.Round)
+			}
+			return
 		} else {
 			// Peer has sent a vote that does not match our round,
 			// for more than one round.  Bad peer!
